@@ -27,10 +27,15 @@ import (
 	"github.com/openbao/openbao/v2/internal/helper/configutil"
 	"github.com/openbao/openbao/v2/internal/helper/namespace"
 	"github.com/openbao/openbao/v2/internal/vault"
+	vaultseal "github.com/openbao/openbao/v2/internal/vault/seal"
+	gti "github.com/mitchellh/go-testing-interface"
 )
 
 type Options struct {
 	NonTxn bool // non-transactional storage
+	// AutoSeal: the barrier root key is kept in storage, wrapped by an external
+	// ("KMS"-style) wrapper with a fixed secret; unsealing needs no shares.
+	AutoSeal bool
 	Audit  map[string]audit.Factory
 	Extra  map[string]logical.Factory
 	ExtraCred map[string]logical.Factory
@@ -87,7 +92,12 @@ func coreConfig(phys physical.Backend, opt Options, rec *RecState) *vault.CoreCo
 	raw := new(server.Config)
 	raw.SharedConfig = &configutil.SharedConfig{}
 	raw.UnsafeAllowAPIAuditCreation = true
+	var sealObj vault.Seal
+	if opt.AutoSeal {
+		sealObj = vault.NewTestSeal(&gti.RuntimeT{}, &vaultseal.TestSealOpts{Secret: []byte("verif-kms-secret-0123456789abcdef"), Logger: log.NewNullLogger()})
+	}
 	return &vault.CoreConfig{
+		Seal:               sealObj,
 		RawConfig:          raw,
 		AuditBackends:      opt.Audit,
 		Physical:           phys,
@@ -99,6 +109,28 @@ func coreConfig(phys physical.Backend, opt Options, rec *RecState) *vault.CoreCo
 	}
 }
 
+// unsealAny unseals with the stored keys (auto seal) or the given shares.
+func unsealAny(c *vault.Core, opt Options, keys [][]byte) error {
+	if opt.AutoSeal {
+		if err := c.UnsealWithStoredKeys(rootCtx()); err != nil {
+			return err
+		}
+		if c.Sealed() {
+			return fmt.Errorf("core still sealed after unsealing with the stored keys")
+		}
+		return nil
+	}
+	for _, k := range keys {
+		if _, err := vault.TestCoreUnseal(c, vault.TestKeyCopy(k)); err != nil {
+			return fmt.Errorf("unseal: %w", err)
+		}
+	}
+	if c.Sealed() {
+		return fmt.Errorf("core still sealed after supplying all shares")
+	}
+	return nil
+}
+
 // Build creates and initialises a brand-new system.
 func Build(t *testing.T, opt Options) *Sys {
 	t.Helper()
@@ -107,13 +139,8 @@ func Build(t *testing.T, opt Options) *Sys {
 	phys := physx.New(newInner(opt))
 	c := vault.TestCoreWithSealAndUINoCleanup(t, coreConfig(phys, opt, rec))
 	keys, root := vault.TestCoreInit(t, c)
-	for _, k := range keys {
-		if _, err := vault.TestCoreUnseal(c, vault.TestKeyCopy(k)); err != nil {
-			t.Fatalf("unseal: %v", err)
-		}
-	}
-	if c.Sealed() {
-		t.Fatal("core still sealed")
+	if err := unsealAny(c, opt, keys); err != nil {
+		t.Fatalf("%v", err)
 	}
 	s := &Sys{T: t, Core: c, Phys: physx.Ctl(phys), Root: root, Keys: keys, Rec: rec, Opt: opt}
 	rec.mu.Lock()
@@ -171,15 +198,9 @@ func BootData(t *testing.T, data map[string][]byte, img *Image) (*Sys, error) {
 	rec := img.Rec.Fork()
 	phys := physx.New(inner)
 	c := vault.TestCoreWithSealAndUINoCleanup(t, coreConfig(phys, img.Opt, rec))
-	for _, k := range img.Keys {
-		if _, err := vault.TestCoreUnseal(c, vault.TestKeyCopy(k)); err != nil {
-			_ = c.Shutdown()
-			return nil, fmt.Errorf("unseal: %w", err)
-		}
-	}
-	if c.Sealed() {
+	if err := unsealAny(c, img.Opt, img.Keys); err != nil {
 		_ = c.Shutdown()
-		return nil, fmt.Errorf("core still sealed after supplying all shares")
+		return nil, err
 	}
 	s := &Sys{T: t, Core: c, Phys: physx.Ctl(phys), Root: img.Root, Keys: img.Keys, Rec: rec, Opt: img.Opt}
 	rec.mu.Lock()
@@ -205,6 +226,17 @@ func BootSealed(t *testing.T, data map[string][]byte, img *Image) (*Sys, error) 
 
 // TryUnseal supplies the shares; reports whether the core ended up unsealed.
 func (s *Sys) TryUnseal(keys [][]byte) (bool, error) {
+	if s.Opt.AutoSeal {
+		if err := s.Core.UnsealWithStoredKeys(rootCtx()); err != nil {
+			return false, err
+		}
+		if !s.Core.Sealed() {
+			s.hookExpiry()
+			s.settle()
+			return true, nil
+		}
+		return false, fmt.Errorf("still sealed after unsealing with the stored keys")
+	}
 	var last error
 	for _, k := range keys {
 		if _, err := vault.TestCoreUnseal(s.Core, vault.TestKeyCopy(k)); err != nil {
